@@ -33,9 +33,9 @@ PERFT = {  # published perft numbers (sanity of the specification itself, never 
 }
 
 TIERS = {
-    "quick": dict(bfs_cfg="ChessBfs.cfg", bfs_timeout=300, worlds=["ep2", "castle1", "pin1", "chk1"], sim_procs=16, sim_num=2, sim_depth=120,
+    "quick": dict(bfs_cfg="ChessBfs.cfg", bfs_timeout=300, worlds=["ep2", "ep3", "castle1", "pin1", "chk1"], sim_procs=16, sim_num=2, sim_depth=120,
                   rec_shards=16, rec_games=2, rec_plies=50, rec_synth=40, perft_depth=2, perft_n=3),
-    "thorough": dict(bfs_cfg="ChessBfs2.cfg", bfs_timeout=1500, worlds=["ep1", "ep2full", "castle1", "castle2", "pin1", "pin2", "chk1"], sim_procs=16, sim_num=25, sim_depth=300,
+    "thorough": dict(bfs_cfg="ChessBfs2.cfg", bfs_timeout=1500, worlds=["ep1", "ep2full", "ep3", "castle1", "castle2", "pin1", "pin2", "chk1"], sim_procs=16, sim_num=25, sim_depth=300,
                      rec_shards=16, rec_games=16, rec_plies=120, rec_synth=500, perft_depth=3, perft_n=6),
 }
 
